@@ -121,6 +121,11 @@ def known_sync():
 def run():
     wd = workdir("setup")
     try:
+        r = subprocess.run(["/venv/bin/python", os.path.join(VERIF, "harness", "mkproto.py"), os.path.join(TLA, "Proto.tla")],
+                           capture_output=True, text=True, cwd="/tmp")
+        if r.returncode != 0:
+            raise Machinery("mkproto failed: " + r.stderr[-1500:])
+        print("setup: " + r.stdout.strip())
         n = sany()
         print("setup: %d modules parsed" % n)
         n = int32_selftest(wd)
